@@ -583,6 +583,7 @@ func c16GenCacheSession(r *common.Rand) (int, []c16Msg) {
 	offered := []int{}
 	nauth := 0
 	subs := []string{"s1", "s2", ""}
+	var reqs [][]common.JFilter
 	for i := 0; i < n; i++ {
 		switch x := r.Intn(100); {
 		case x < 50:
@@ -594,7 +595,13 @@ func c16GenCacheSession(r *common.Rand) (int, []c16Msg) {
 			e := pool[idx]
 			msgs = append(msgs, c16Msg{K: "event", E: &e})
 		case x < 78:
-			msgs = append(msgs, c16Msg{K: "req", Sub: common.Pick(r, subs), Fs: c16GenFilters(r, ids)})
+			fs := c16GenFilters(r, ids)
+			if len(reqs) > 0 && r.Chance(30) {
+				// an earlier REQ again, with one condition fewer per filter
+				fs = common.Relax(r, reqs[r.Intn(len(reqs))])
+			}
+			reqs = append(reqs, fs)
+			msgs = append(msgs, c16Msg{K: "req", Sub: common.Pick(r, subs), Fs: fs})
 		case x < 86:
 			msgs = append(msgs, c16Msg{K: "count", Sub: common.Pick(r, subs), Fs: c16GenFilters(r, ids)})
 		case x < 93:
